@@ -177,8 +177,26 @@ def cap_memory(gb=8):
         pass
 
 
+class _StderrFilter:
+    """drops execnet's own 'Warning: unhandled RemoteError' chatter (RemoteError.warn) - expected by the
+    thousands in error-path checks - and passes everything else through"""
+
+    def __init__(self, real):
+        self.real = real
+
+    def write(self, text):
+        f = sys._getframe(1)
+        if f.f_code.co_name == "warn" and f.f_code.co_filename.endswith("gateway_base.py"):
+            return len(text)
+        return self.real.write(text)
+
+    def __getattr__(self, name):
+        return getattr(self.real, name)
+
+
 def worker_main(mod, partname, tier, seed, shard, nshards, budget, out):
     cap_memory()
+    sys.stderr = _StderrFilter(sys.stderr)
     tree.use()
     part = next(p for p in mod.PARTS if p.name == partname)
     ctx = Ctx(mod.PROPERTY, tier, seed, shard, nshards, budget)
